@@ -30,14 +30,17 @@ SKIP = {"array_repr", "array_str", "savetxt", "copyto", "ones", "zeros", "apply_
         "common_type", "result_type", "full"}   # text / IO / explicit destination / no polynomial operand to make constant
 
 
-def same(got, exp, path="result", atol=0.0):
+LOOSE_FLOAT = {"det"}       # numpy: LU factorisation; numpoly: cofactor expansion
+
+
+def same(got, exp, path="result", atol=0.0, exact=False):
     """None if equal, else a description.  atol: absolute slack for float results whose numpy implementation rounds
     differently from an exact evaluation (LU determinant, summation order under cancellation)."""
     if isinstance(exp, (tuple, list)):
         if not isinstance(got, (tuple, list)) or len(got) != len(exp):
             return f"{path}: {type(got).__name__} of length {len(got) if hasattr(got, '__len__') else '?'}, numpy gives {type(exp).__name__} of length {len(exp)}"
         for k, (g, e) in enumerate(zip(got, exp)):
-            d = same(g, e, f"{path}[{k}]", atol)
+            d = same(g, e, f"{path}[{k}]", atol, exact)
             if d:
                 return d
         return None
@@ -54,7 +57,9 @@ def same(got, exp, path="result", atol=0.0):
             return f"{path}: dtype kind {g.dtype} vs numpy's {e.dtype}"
     if g.shape != e.shape:
         return f"{path}: shape {g.shape}, numpy gives {e.shape}"
-    if e.dtype.kind in "fc":
+    if e.dtype.kind in "fc" and exact:
+        okv = numpy.array_equal(g.astype(e.dtype), e, equal_nan=True)
+    elif e.dtype.kind in "fc":
         okv = numpy.allclose(g.astype(e.dtype), e, rtol=1e-12, atol=atol, equal_nan=True)
     else:
         okv = numpy.array_equal(g, e)
@@ -176,7 +181,10 @@ def run(report, tier, seed):
                   if isinstance(v, float) and v == v and abs(v) != float("inf")]
             scale = max([1.0] + fl)
             power = numpy.asarray(rargs[0]).shape[-1] if name == "det" and numpy.asarray(rargs[0]).ndim >= 2 else 2
-            d = same(got, exp, atol=(1e-13 * len(fl) * scale ** power) if fl else 0.0)
+            # exact agreement is required (numpoly applies the same numpy kernel to the same numbers); only where numpoly
+            # legitimately evaluates in another order is a rounding slack granted
+            loose = name in LOOSE_FLOAT
+            d = same(got, exp, atol=(1e-13 * len(fl) * scale ** power) if (fl and loose) else 0.0, exact=not loose)
             vals = flat_values(rargs[0] if not callable(rargs[0]) else rargs[-1]) if rargs else []
             if len(set(map(str, vals))) < len(vals) or any(isinstance(v, (int, float)) and v < 0 for v in vals):
                 nontrivial.add((name, desc))
